@@ -70,7 +70,9 @@ TIMEOUT_S = {'quick': 600, 'thorough': 3 * 3600}
 
 VAR_ULP = 4      # property: "within a few units in the last place"
 FILE_E_ULP = 2   # column 3 against the long-double square root
-DUP_CAP = 4      # witnesses kept per (kind, mechanism) and shard; the rest is counted
+DUP_CAP = 3      # witnesses kept per (kind, mechanism) and shard; the rest is counted
+MECHANISM_KEYS = ('header_has_bare_cr', 'reader_newlines', 'file_header_escaped', 'more_rows_loaded',
+                  'table_tail_intact', 'input_class', 'column', 'exc_type', 'single_row')
 
 MAXF = np.finfo(np.float64).max
 MINNORM = np.finfo(np.float64).tiny
@@ -167,7 +169,9 @@ class Monitors:
 
     # ---- reporting with a cap per mechanism -------------------------------
     def viol(self, kind, what, case, **keys):
-        sig = (kind, tuple(sorted((k, repr(v)) for k, v in keys.items())))
+        # one mechanism = kind + the facts a known-finding predicate looks at (not target kind etc.),
+        # so that a known mechanism cannot crowd other witnesses out of the kept list
+        sig = (kind, tuple((k, repr(keys.get(k))) for k in MECHANISM_KEYS))
         n = self._dups.get(sig, 0) + 1
         self._dups[sig] = n
         if n > DUP_CAP:
